@@ -132,15 +132,27 @@ fn check_out_of_range(depth: u8, part: &mut Part) {
     if h < nh {
       continue;
     }
-    part.stratum("out-of-range", 1, 10);
-    if let Ok(v) = impl_neighbours(depth, h, false) {
-      part.viol(Viol {
-        api: "nested::neighbours".into(),
-        kind: "out-of-range-accepted".into(),
-        case: case_json(depth, h),
-        expected: "panic (hash >= 12*4^depth)".into(),
-        actual: fmt_nb(&v),
-      });
+    part.stratum("out-of-range", 1, 13);
+    // every value of the other argument (with / without the centre), free function and method
+    for center in [false, true] {
+      if let Ok(v) = impl_neighbours(depth, h, center) {
+        part.viol(Viol {
+          api: "nested::neighbours".into(),
+          kind: "out-of-range-accepted".into(),
+          case: case_json(depth, h),
+          expected: "panic (hash >= 12*4^depth)".into(),
+          actual: fmt_nb(&v),
+        });
+      }
+      if guarded(move || nested::get_or_create(depth).neighbours(h, center).entries_vec().len()).is_ok() {
+        part.viol(Viol {
+          api: "Layer::neighbours".into(),
+          kind: "out-of-range-accepted".into(),
+          case: case_json(depth, h),
+          expected: "panic (hash >= 12*4^depth)".into(),
+          actual: "returned a map".into(),
+        });
+      }
     }
     for idx in 0..9u8 {
       let r = guarded(move || nested::get_or_create(depth).neighbour(h, MainWind::from_index(idx)));
